@@ -160,7 +160,7 @@ def write_evidence(pid, tier, seed, level, coverage, wall, violations, assumptio
     os.makedirs(os.path.join(VERIF, "evidence"), exist_ok=True)
     ev = dict(property_id=pid, tier=tier, seed=int(seed), level=level, coverage=coverage, wall_s=round(wall, 2),
               violations=int(violations), assumptions=list(assumptions))
-    tmp = os.path.join(VERIF, "evidence", pid + ".json.tmp")
+    tmp = os.path.join(VERIF, "evidence", f"{pid}.json.tmp{os.getpid()}")
     with open(tmp, "w") as f:
         json.dump(ev, f, indent=1, sort_keys=True, default=str)
     os.replace(tmp, os.path.join(VERIF, "evidence", pid + ".json"))
